@@ -5,6 +5,7 @@
 import GwfProps.Lemmas.SchedTop
 import GwfProps.C04
 import GwfModel.Project
+import GwfProps.Lemmas.GlobLemmas
 namespace Gwf.C02
 open Gwf
 
@@ -149,6 +150,32 @@ theorem validated_project (p : Proj) (g : Graph String) (hg : p.graph = .ok g)
     ∧ ∃ σ, IsStatusMap (p.wf g) σ ∧ ∀ σ', IsStatusMap (p.wf g) σ' → ∀ t, σ' t = σ t := by
   obtain ⟨rank, h1, h2⟩ := C04.graph_rank p.tgts _ hid g hg
   exact ⟨⟨rank, h1, h2⟩, statusMap_exists_unique (p.wf g) ⟨rank, h1⟩⟩
+
+/-! ### the requested targets: name patterns -/
+
+/-- a target is selected iff it exists and at least one of the patterns matches its name
+    (so several patterns select the union, and a pattern that matches nothing selects nothing) -/
+theorem mem_select (patterns names : List String) (n : String) :
+    n ∈ Glob.select patterns names ↔ n ∈ names ∧ ∃ p ∈ patterns, Glob.globMatch p n = true := by
+  simp [Glob.select, List.mem_filter, List.any_eq_true]
+
+/-- a pattern without `*`, `?`, `[` selects exactly the target of that name -/
+theorem glob_literal (p name : String) (h : ∀ c ∈ p.toList, Glob.isMeta c = false) :
+    Glob.globMatch p name = decide (p = name) := by
+  simp only [Glob.globMatch]
+  rw [Glob.gmatch_literal p.toList name.toList _ (by simp [String.length]; omega) h]
+  by_cases e : p = name
+  · simp [e]
+  · have : p.toList ≠ name.toList := fun h' => e (String.ext h')
+    simp [e, this]
+
+/-- `*` selects every target -/
+theorem glob_star (name : String) : Glob.globMatch "*" name = true := by
+  simp only [Glob.globMatch]
+  exact Glob.gmatch_star name.toList _ (by simp [String.length])
+
+example : Glob.select ["A*", "?2"] ["A1", "B2", "C3", "A"] = ["A1", "B2", "A"] := by decide
+example : Glob.select ["[!A]*"] ["A1", "B2"] = ["B2"] := by decide
 
 /-! ### non-vacuity: a concrete diamond with an in-flight, a failed and a stale target -/
 
